@@ -297,7 +297,7 @@ def stream_save(ctx, drv, cov, viols, root, r):
             init["pairing.json"] = dumps_file(old)
         ctl = controller_with(new)
         path = os.path.join(root, "pairing.json")
-        max_pieces = 0 if (i < 1 and tier == "quick") or (i < 6 and tier != "quick") else (6 if tier == "quick" else 16)
+        max_pieces = 0 if (i < 1 and tier == "quick") or (i < 6 and tier != "quick") else (6 if tier == "quick" else 12)
         if max_pieces == 0:
             # every byte boundary: keep the document small (quadratic number of raw writes)
             new = {ALIASES[(i + 1) % 4]: gen_pairing(r, ["BLE", "IP", "CoAP"][i % 3])}
